@@ -1,16 +1,17 @@
-"""Property -> engine."""
+"""Property -> engine(s).  A check may mix engines: the run index decides which engine a run uses, and every
+record names its engine so that replay needs no such rule."""
 from __future__ import annotations
 
-ENGINE_A = ('C01', 'C02', 'C03', 'C07', 'C10', 'C11', 'C17', 'C19')
+from . import evidence
 
 
-class _EngineA:
+def _known():
+    from . import known
+    return known.load()
+
+
+class _A:
     name = 'A'
-
-    @staticmethod
-    def load_known():
-        from . import known
-        return known.load()
 
     @staticmethod
     def run_generated(prop, seed, run, tier, known=None):
@@ -23,10 +24,22 @@ class _EngineA:
         return engine_a.run_replay(record, known)
 
 
-class _EngineC04:
+class _B:
+    name = 'B'
+
+    @staticmethod
+    def run_generated(prop, seed, run, tier, known=None):
+        from . import engine_b
+        return engine_b.run_generated(prop, seed, run, tier, known)
+
+    @staticmethod
+    def run_replay(record, known=None):
+        from . import engine_b
+        return engine_b.run_replay(record, known)
+
+
+class _C04:
     name = 'C04'
-    chunk = 2
-    load_known = _EngineA.load_known
 
     @staticmethod
     def run_generated(prop, seed, run, tier, known=None):
@@ -38,26 +51,68 @@ class _EngineC04:
         from . import engine_c04
         return engine_c04.run_replay(record, known)
 
-    @staticmethod
-    def rule(prop):
-        from . import engine_c04
-        return (f"runs 0..{engine_c04.N_CORPUS - 1}: a fixed corpus of {engine_c04.N_CORPUS} operations (every op kind x pairing form, "
-                "successful and naturally failing part-way) for each of which EVERY fault instant is enumerated: an injected "
-                "KeyboardInterrupt / MemoryError at each traced line event of pyplate/*.py and copy.py, and a MemoryError from each "
-                "deepcopy call; remaining runs: seeded Engine-A histories in which 10-40% of the events carry a fault at a seeded "
-                "instant (dry run -> faulted run -> invariants -> recovery). After every fault the fingerprint of every live object, "
-                "every argument and the module config must be unchanged and the fault-free retry must equal the dry run. "
-                "Non-trivial: >= 2 successful state-changing events (or an enumeration); distinct = distinct coverage signatures "
-                "(event tuples incl. fault kind and phase quintile).")
+
+BY_NAME = {'A': _A, 'B': _B, 'C04': _C04}
+
+# property -> list of (engine name, weight): run r uses the engine whose slot contains r mod sum(weights)
+MIX = {
+    'C01': [('A', 1)], 'C02': [('A', 1)], 'C10': [('A', 1)], 'C11': [('A', 1)],
+    'C03': [('A', 7), ('B', 1)],
+    'C07': [('A', 4), ('B', 1)],
+    'C17': [('A', 2), ('B', 1)],
+    'C19': [('A', 2), ('B', 1)],
+    'C08': [('B', 1)], 'C09': [('B', 1)], 'C15': [('B', 1)], 'C16': [('B', 1)],
+    'C04': [('C04', 1)],
+}
+
+RULE_B = ("cases = simulated runs of Engine B: a seeded recipe program - a prelude of directly built (non-uniform) containers and "
+          "plates, then a history of Recipe API calls (uses, create_container, create_solution, create_solution_from, transfer, "
+          "remove, dilute, fill_to, start_stage, end_stage, bake, illegal calls, calls after bake) produced by interleaving intents "
+          "over shared objects - executed on the real Recipe beside an eager reference (the same operations through the direct API), "
+          "a per-step ledger (model snapshots of every object at every step boundary) and a life-cycle reference machine. "
+          "A run is non-trivial if at least two steps were accepted; distinct = distinct coverage signatures (sorted set of "
+          "(call kind, predicted outcome, actual outcome, life-cycle state) and query tuples of the run).")
+
+
+class Mixed:
+    def __init__(self, prop):
+        self.prop = prop
+        self.mix = MIX[prop]
+        self.total = sum(w for _, w in self.mix)
+        if prop == 'C04':
+            self.chunk = 2
+
+    def load_known(self):
+        return _known()
+
+    def engine_of_run(self, run):
+        r = run % self.total
+        for name, w in self.mix:
+            if r < w:
+                return BY_NAME[name]
+            r -= w
+        raise AssertionError
+
+    def run_generated(self, prop, seed, run, tier, known=None):
+        return self.engine_of_run(run).run_generated(prop, seed, run, tier, known)
+
+    def run_replay(self, record, known=None):
+        return BY_NAME[record.get('engine', self.mix[0][0])].run_replay(record, known)
+
+    def rule(self, prop):
+        names = [n for n, _ in self.mix]
+        if names == ['C04']:
+            from . import engine_c04
+            return engine_c04.rule()
+        parts = []
+        if 'A' in names:
+            parts.append(evidence.RULE['A'])
+        if 'B' in names:
+            parts.append(RULE_B)
+        if len(names) > 1:
+            parts.append("run r uses engine " + ", ".join(f"{n} for {w} of every {self.total} indices" for n, w in self.mix) + ".")
+        return " ".join(parts)
 
 
 def engine_for(prop, record=None):
-    if record is not None:
-        name = record.get('engine', 'A')
-    else:
-        name = 'A' if prop in ENGINE_A else 'C04' if prop == 'C04' else None
-    if name == 'A':
-        return _EngineA
-    if name == 'C04':
-        return _EngineC04
-    raise KeyError(prop)
+    return Mixed(prop)
